@@ -1,5 +1,6 @@
 import RlModel.Lemmas.KernelSlots
 import RlModel.Lemmas.KernelEval
+import RlModel.Lemmas.KernelLen
 /-!
 C14 — vectorised expression evaluation equals scalar SQL semantics.
 
@@ -198,10 +199,8 @@ theorem filter_uses_raw_bits_unsound : ¬ FilterUsesValues := by
 
 /-! ## CASE / `select_op` -/
 
-def specSelectRows {α} : List (Option Bool) → List (Option α) → List (Option α) →
-    List (Option α)
-  | c :: cs, a :: as, b :: bs => specSelect c a b :: specSelectRows cs as bs
-  | _, _, _ => []
+/-- Row-wise CASE (`specSelRows` of the model). -/
+abbrev specSelectRows {α} := @specSelRows α
 
 /-- Full statement (does NOT hold): CASE takes, row by row, THEN where the condition is TRUE
 and ELSE otherwise. -/
@@ -223,7 +222,7 @@ theorem select_pointwise_partial {α} (s : Arr Bool) (a b : Arr α)
   simp only [KOut.map]
   congr 1
   induction s generalizing a b with
-  | nil => simp [zip3, vals, specSelectRows]
+  | nil => simp [zip3, vals, specSelectRows, specSelRows]
   | cons s0 ss ih =>
     cases a with
     | nil => simp at h2
@@ -234,7 +233,7 @@ theorem select_pointwise_partial {α} (s : Arr Bool) (a b : Arr α)
         have h0 := h (s0, a0, b0) (by simp)
         have ih' := ih as bs (by simpa using h1) (by simpa using h2)
           (fun t ht => h t (by simp [ht]))
-        simp only [zip3, vals, List.map_cons, specSelectRows] at ih' ⊢
+        simp only [zip3, vals, List.map_cons, specSelectRows, specSelRows] at ih' ⊢
         rw [ih']
         rcases s0 with ⟨sv, sr⟩
         rcases a0 with ⟨av, ar⟩
@@ -516,5 +515,840 @@ theorem isnull_pointwise (c : Col) :
 example : arithTags .add .w32 [⟨true, 1⟩, ⟨false, 0⟩] [⟨true, 2⟩, ⟨true, 5⟩] = [] := by decide
 example : selectTags [⟨true, true⟩, ⟨false, false⟩] [⟨true, (1 : Int)⟩, ⟨false, 9⟩] [⟨false, 0⟩, ⟨true, 3⟩] = [] := by
   decide
+
+/-! ## Whole expression trees (auxiliary column-level lemmas, then the composition theorem) -/
+
+theorem map_abs_int (w : IW) (r : KOut (Arr Int)) :
+    (r.map (Col.int w)).map Col.abs = (r.map vals).map (SCol.int w) := by cases r <;> rfl
+theorem map_abs_bool (r : KOut (Arr Bool)) :
+    (r.map Col.bool).map Col.abs = (r.map vals).map SCol.bool := by cases r <;> rfl
+theorem map_abs_str (r : KOut (Arr String)) :
+    (r.map Col.str).map Col.abs = (r.map vals).map SCol.str := by cases r <;> rfl
+
+theorem vals_map_mem {α β} (a : Arr α) (g : Slot α → Slot β) (h : Option α → Option β)
+    (hg : ∀ s ∈ a, (g s).val = h s.val) : vals (a.map g) = (vals a).map h := by
+  induction a with
+  | nil => rfl
+  | cons x xs ih =>
+    have := ih (fun s hs => hg s (by simp [hs]))
+    simp only [vals, List.map_cons, List.map_map] at this ⊢
+    simp [hg x (by simp), ← this]
+
+theorem concat_abs (a b : Arr String) :
+    (Col.concat (.str a) (.str b)).map Col.abs =
+      (rows2 (fun x y => match x, y with
+        | some p, some q => KOut.ok (some (p ++ q))
+        | _, _ => KOut.ok none) (vals a) (vals b)).map SCol.str := by
+  have h : (binaryOp (fun x y => KOut.ok (x ++ y)) a b).map vals = rows2 (fun x y => match x, y with
+        | some p, some q => KOut.ok (some (p ++ q))
+        | _, _ => KOut.ok none) (vals a) (vals b) := by
+    rw [binaryOp_eq_zipSlotM' _ a b (by intro x y h; cases h)]
+    apply zipSlotM_vals'
+    intro p _
+    rcases p with ⟨⟨va, ra⟩, ⟨vb, rb⟩⟩
+    cases va <;> cases vb <;> simp [binSlot, Slot.val, KOut.map]
+  rw [← h]
+  simp only [Col.concat]
+  cases binaryOp (fun x y => KOut.ok (x ++ y)) a b <;> rfl
+
+theorem repeat_abs (a : Arr String) (b : Arr Int) :
+    (Col.repeat_ (.str a) (.int .w32 b)).map Col.abs =
+      (rows2 (fun x y => match x, y with
+        | some p, some q => KOut.ok (some (repeatF p q))
+        | _, _ => KOut.ok none) (vals a) (vals b)).map SCol.str := by
+  have h : (binaryOp (fun s n => KOut.ok (repeatF s n)) a b).map vals = rows2 (fun x y => match x, y with
+        | some p, some q => KOut.ok (some (repeatF p q))
+        | _, _ => KOut.ok none) (vals a) (vals b) := by
+    rw [binaryOp_eq_zipSlotM' _ a b (by intro x y h; cases h)]
+    apply zipSlotM_vals'
+    intro p _
+    rcases p with ⟨⟨va, ra⟩, ⟨vb, rb⟩⟩
+    cases va <;> cases vb <;> simp [binSlot, Slot.val, KOut.map]
+  rw [← h]
+  simp only [Col.repeat_]
+  cases binaryOp (fun s n => KOut.ok (repeatF s n)) a b <;> rfl
+
+theorem replace_abs (f t : String) (a : Arr String) :
+    (Col.replace f t (.str a)).map Col.abs
+      = .ok (.str ((vals a).map (Option.map fun s => replaceF f t s))) := by
+  simp only [Col.replace, KOut.map, Col.abs]
+  rw [vals_map a _ (Option.map fun s => replaceF f t s)]
+  intro s; rcases s with ⟨v, r⟩; cases v <;> simp [Slot.val]
+
+theorem like_abs (p : String) (a : Arr String) (h : likeTags p a = []) :
+    (Col.like p (.str a)).map Col.abs
+      = .ok (.bool ((vals a).map (Option.map fun s => likeSpec p s))) := by
+  unfold likeTags at h
+  split at h
+  · exact absurd h (List.cons_ne_nil _ _)
+  · rename_i hp
+    split at h
+    · split at h <;> exact absurd h (List.cons_ne_nil _ _)
+    · rename_i hx
+      simp only [Col.like, likeK, hp, Bool.false_eq_true, if_false, KOut.map, Col.abs, clearNull,
+        List.map_map]
+      congr 2
+      apply vals_map_mem
+      intro s hs
+      simp only [Bool.not_eq_true, List.any_eq_false] at hx
+      have := hx s hs
+      rcases s with ⟨v, r⟩
+      cases v <;> simp_all [Slot.val]
+
+theorem substring_abs (a : Arr String) (b c : Arr Int) :
+    vals (ternaryOp "" substrF a b c) = specSubstrRows (vals a) (vals b) (vals c) := by
+  induction a generalizing b c with
+  | nil => cases b <;> cases c <;> simp [ternaryOp, vals, specSubstrRows]
+  | cons x xs ih =>
+    cases b with
+    | nil => cases c <;> simp [ternaryOp, vals, specSubstrRows]
+    | cons y ys =>
+      cases c with
+      | nil => simp [ternaryOp, vals, specSubstrRows]
+      | cons z zs =>
+        have := ih ys zs
+        simp only [vals, List.map_cons, ternaryOp] at this ⊢
+        rcases x with ⟨vx, rx⟩
+        rcases y with ⟨vy, ry⟩
+        rcases z with ⟨vz, rz⟩
+        cases vx <;> cases vy <;> cases vz <;> simp [Slot.val, specSubstrRows, this]
+
+theorem neg_abs (w : IW) (hw : w ≠ .w16) (x : Arr Int)
+    (h : x.all (fun s => (negW w s.raw).isOk) = true) :
+    (Col.neg (.int w x)).map Col.abs = (rows1 (specNeg w) (vals x)).map (SCol.int w) := by
+  have hv : (unaryOp (negW w) x).map vals = rows1 (specNeg w) (vals x) := by
+    apply unaryOp_vals
+    · intro s hs
+      simp only [List.all_eq_true] at h
+      have := h s hs
+      cases hr : negW w s.raw with
+      | ok c => exact ⟨c, rfl⟩
+      | err => simp [hr, KOut.isOk] at this
+      | panic => simp [hr, KOut.isOk] at this
+    · intro s _ c hc
+      rcases s with ⟨v, r⟩
+      simp only [negW, chk] at hc
+      cases v
+      · simp [Slot.val, specNeg]
+      · simp only [Slot.val, specNeg, if_true]
+        split at hc
+        · cases hc; simp_all
+        · cases hc
+  rw [← hv]
+  cases w with
+  | w16 => exact absurd rfl hw
+  | w32 => simp only [Col.neg]; cases unaryOp (negW .w32) x <;> rfl
+  | w64 => simp only [Col.neg]; cases unaryOp (negW .w64) x <;> rfl
+
+theorem select_abs (s : Arr Bool) (w : IW) (x y : Arr Int) (h1 : x.length = y.length)
+    (h2 : s.length = x.length) (h : selectTags s x y = []) :
+    (Col.select (.bool s) (.int w x) (.int w y)).map Col.abs
+      = (specSelM (vals s) (vals x) (vals y)).map (SCol.int w) := by
+  have hs := select_no_tag s x y h1 h2 h
+  simp only [Col.select, beq_self_eq_true, if_true]
+  have hl : ¬ ((vals x).length ≠ (vals y).length ∨ (vals s).length ≠ (vals x).length) := by
+    simp [vals, h1, h2]
+  simp only [specSelM, hl, if_false]
+  cases hk : selectOp s x y with
+  | ok c =>
+    rw [hk] at hs; simp only [KOut.map] at hs ⊢
+    have := KOut.ok.inj hs
+    simp only [Col.abs, this, specSelectRows]
+  | err => rw [hk] at hs; cases hs
+  | panic => rw [hk] at hs; cases hs
+
+
+/-- Composition over whole expression trees: an expression evaluated on a well-formed chunk
+(arrays of ANY length n, any raw garbage under NULL) for which no node raises a reason tag — i.e.
+every forced hypothesis of the node theorems holds on the actual intermediate arrays — denotes,
+row by row, its SQL value (`specEval` is built from scalar functions of one row only). -/
+theorem eval_tree_pointwise (chunk : List Col) (n : Nat) (hwf : ChunkWF chunk n) (e : KExpr) :
+    (evalK chunk n e).2 = [] →
+      (evalK chunk n e).1.map Col.abs = specEval (chunk.map Col.abs) n e := by
+  induction e with
+  | col i =>
+    intro _
+    simp only [evalK, specEval, List.getElem?_map]
+    cases chunk[i]? <;> rfl
+  | const v =>
+    intro _
+    simp only [evalK, specEval, KOut.map]
+    cases v <;> simp [constCol, constSCol, Col.abs, vals_replicate_valid]
+  | arith op a b iha ihb =>
+    intro ht
+    simp only [evalK] at ht ⊢
+    simp only [specEval]
+    rcases ha : evalK chunk n a with ⟨ra, ta⟩
+    try rw [ha] at ht
+    try rw [ha]
+    cases ra with
+    | ok ca =>
+      rcases hb : evalK chunk n b with ⟨rb, tb⟩
+      try rw [hb] at ht
+      try rw [hb]
+      cases rb with
+      | ok cb =>
+        simp only [List.append_eq_nil_iff] at ht
+        obtain ⟨⟨hta, htb⟩, htg⟩ := ht
+        have ea := iha (by rw [ha]; exact hta)
+        have eb := ihb (by rw [hb]; exact htb)
+        rw [ha] at ea; rw [hb] at eb
+        simp only [KOut.map] at ea eb
+        have la := evalK_len chunk n hwf a ca (by rw [ha])
+        have lb := evalK_len chunk n hwf b cb (by rw [hb])
+        rw [← ea, ← eb]
+        simp only
+        cases ca <;> cases cb <;> first
+          | (simp only [Col.arith, Col.abs] at htg ⊢
+             rw [map_abs_int, arith_no_tag _ _ _ _ (by simpa [Col.len] using la.trans lb.symm) htg])
+          | (simp [Col.arith, Col.abs, KOut.map, Col.ty] at htg ⊢)
+      | err =>
+        simp only [List.append_eq_nil_iff] at ht
+        have ea := iha (by rw [ha]; exact ht.1)
+        have eb := ihb (by rw [hb]; exact ht.2)
+        rw [ha] at ea; rw [hb] at eb
+        simp only [KOut.map] at ea eb
+        rw [← ea, ← eb]; rfl
+      | panic =>
+        simp only [List.append_eq_nil_iff] at ht
+        have ea := iha (by rw [ha]; exact ht.1)
+        have eb := ihb (by rw [hb]; exact ht.2)
+        rw [ha] at ea; rw [hb] at eb
+        simp only [KOut.map] at ea eb
+        rw [← ea, ← eb]; rfl
+    | err =>
+      have ea := iha (by rw [ha]; exact ht)
+      rw [ha] at ea; simp only [KOut.map] at ea
+      rw [← ea]; rfl
+    | panic =>
+      have ea := iha (by rw [ha]; exact ht)
+      rw [ha] at ea; simp only [KOut.map] at ea
+      rw [← ea]; rfl
+  | cmp op a b iha ihb =>
+    intro ht
+    simp only [evalK] at ht ⊢
+    simp only [specEval]
+    rcases ha : evalK chunk n a with ⟨ra, ta⟩
+    try rw [ha] at ht
+    try rw [ha]
+    cases ra with
+    | ok ca =>
+      rcases hb : evalK chunk n b with ⟨rb, tb⟩
+      try rw [hb] at ht
+      try rw [hb]
+      cases rb with
+      | ok cb =>
+        simp only [List.append_eq_nil_iff] at ht
+        obtain ⟨⟨hta, htb⟩, htg⟩ := ht
+        have ea := iha (by rw [ha]; exact hta)
+        have eb := ihb (by rw [hb]; exact htb)
+        rw [ha] at ea; rw [hb] at eb
+        simp only [KOut.map] at ea eb
+        have la := evalK_len chunk n hwf a ca (by rw [ha])
+        have lb := evalK_len chunk n hwf b cb (by rw [hb])
+        rw [← ea, ← eb]
+        simp only
+        cases ca <;> cases cb <;> first
+          | (simp only [Col.cmp, Col.abs] at htg ⊢
+             rw [map_abs_bool, cmp_pointwise])
+          | (simp [Col.cmp, Col.abs, KOut.map, Col.ty] at htg ⊢)
+      | err =>
+        simp only [List.append_eq_nil_iff] at ht
+        have ea := iha (by rw [ha]; exact ht.1)
+        have eb := ihb (by rw [hb]; exact ht.2)
+        rw [ha] at ea; rw [hb] at eb
+        simp only [KOut.map] at ea eb
+        rw [← ea, ← eb]; rfl
+      | panic =>
+        simp only [List.append_eq_nil_iff] at ht
+        have ea := iha (by rw [ha]; exact ht.1)
+        have eb := ihb (by rw [hb]; exact ht.2)
+        rw [ha] at ea; rw [hb] at eb
+        simp only [KOut.map] at ea eb
+        rw [← ea, ← eb]; rfl
+    | err =>
+      have ea := iha (by rw [ha]; exact ht)
+      rw [ha] at ea; simp only [KOut.map] at ea
+      rw [← ea]; rfl
+    | panic =>
+      have ea := iha (by rw [ha]; exact ht)
+      rw [ha] at ea; simp only [KOut.map] at ea
+      rw [← ea]; rfl
+  | and a b iha ihb =>
+    intro ht
+    simp only [evalK] at ht ⊢
+    simp only [specEval]
+    rcases ha : evalK chunk n a with ⟨ra, ta⟩
+    try rw [ha] at ht
+    try rw [ha]
+    cases ra with
+    | ok ca =>
+      rcases hb : evalK chunk n b with ⟨rb, tb⟩
+      try rw [hb] at ht
+      try rw [hb]
+      cases rb with
+      | ok cb =>
+        simp only [List.append_eq_nil_iff] at ht
+        obtain ⟨⟨hta, htb⟩, htg⟩ := ht
+        have ea := iha (by rw [ha]; exact hta)
+        have eb := ihb (by rw [hb]; exact htb)
+        rw [ha] at ea; rw [hb] at eb
+        simp only [KOut.map] at ea eb
+        have la := evalK_len chunk n hwf a ca (by rw [ha])
+        have lb := evalK_len chunk n hwf b cb (by rw [hb])
+        rw [← ea, ← eb]
+        simp only
+        cases ca <;> cases cb <;> first
+          | (simp only [Col.and, Col.abs, SCol.asBool] at htg ⊢
+             rw [map_abs_bool, and_pointwise])
+          | (simp [Col.and, Col.abs, KOut.map, Col.ty, SCol.asBool] at htg ⊢)
+      | err =>
+        simp only [List.append_eq_nil_iff] at ht
+        have ea := iha (by rw [ha]; exact ht.1)
+        have eb := ihb (by rw [hb]; exact ht.2)
+        rw [ha] at ea; rw [hb] at eb
+        simp only [KOut.map] at ea eb
+        rw [← ea, ← eb]; rfl
+      | panic =>
+        simp only [List.append_eq_nil_iff] at ht
+        have ea := iha (by rw [ha]; exact ht.1)
+        have eb := ihb (by rw [hb]; exact ht.2)
+        rw [ha] at ea; rw [hb] at eb
+        simp only [KOut.map] at ea eb
+        rw [← ea, ← eb]; rfl
+    | err =>
+      have ea := iha (by rw [ha]; exact ht)
+      rw [ha] at ea; simp only [KOut.map] at ea
+      rw [← ea]; rfl
+    | panic =>
+      have ea := iha (by rw [ha]; exact ht)
+      rw [ha] at ea; simp only [KOut.map] at ea
+      rw [← ea]; rfl
+  | or a b iha ihb =>
+    intro ht
+    simp only [evalK] at ht ⊢
+    simp only [specEval]
+    rcases ha : evalK chunk n a with ⟨ra, ta⟩
+    try rw [ha] at ht
+    try rw [ha]
+    cases ra with
+    | ok ca =>
+      rcases hb : evalK chunk n b with ⟨rb, tb⟩
+      try rw [hb] at ht
+      try rw [hb]
+      cases rb with
+      | ok cb =>
+        simp only [List.append_eq_nil_iff] at ht
+        obtain ⟨⟨hta, htb⟩, htg⟩ := ht
+        have ea := iha (by rw [ha]; exact hta)
+        have eb := ihb (by rw [hb]; exact htb)
+        rw [ha] at ea; rw [hb] at eb
+        simp only [KOut.map] at ea eb
+        have la := evalK_len chunk n hwf a ca (by rw [ha])
+        have lb := evalK_len chunk n hwf b cb (by rw [hb])
+        rw [← ea, ← eb]
+        simp only
+        cases ca <;> cases cb <;> first
+          | (rename_i x y
+             simp only [Col.or, Col.abs, SCol.asBool] at htg ⊢
+             have hh : (rawFalseUnderNullB x && rawFalseUnderNullB y) = true := by
+               cases hc : (rawFalseUnderNullB x && rawFalseUnderNullB y) <;> simp [hc] at htg ⊢
+             rw [map_abs_bool, or_no_tag x y hh])
+          | (simp [Col.or, Col.abs, KOut.map, Col.ty, SCol.asBool] at htg ⊢)
+      | err =>
+        simp only [List.append_eq_nil_iff] at ht
+        have ea := iha (by rw [ha]; exact ht.1)
+        have eb := ihb (by rw [hb]; exact ht.2)
+        rw [ha] at ea; rw [hb] at eb
+        simp only [KOut.map] at ea eb
+        rw [← ea, ← eb]; rfl
+      | panic =>
+        simp only [List.append_eq_nil_iff] at ht
+        have ea := iha (by rw [ha]; exact ht.1)
+        have eb := ihb (by rw [hb]; exact ht.2)
+        rw [ha] at ea; rw [hb] at eb
+        simp only [KOut.map] at ea eb
+        rw [← ea, ← eb]; rfl
+    | err =>
+      have ea := iha (by rw [ha]; exact ht)
+      rw [ha] at ea; simp only [KOut.map] at ea
+      rw [← ea]; rfl
+    | panic =>
+      have ea := iha (by rw [ha]; exact ht)
+      rw [ha] at ea; simp only [KOut.map] at ea
+      rw [← ea]; rfl
+  | not a iha =>
+    intro ht
+    simp only [evalK] at ht ⊢
+    simp only [specEval]
+    rcases ha : evalK chunk n a with ⟨ra, ta⟩
+    try rw [ha] at ht
+    try rw [ha]
+    cases ra with
+    | ok ca =>
+        simp only [List.append_eq_nil_iff] at ht
+        obtain ⟨hta, htg⟩ := ht
+        have ea := iha (by rw [ha]; exact hta)
+        rw [ha] at ea
+        simp only [KOut.map] at ea
+        have la := evalK_len chunk n hwf a ca (by rw [ha])
+        rw [← ea]
+        simp only
+        cases ca <;> first
+          | (simp only [Col.not, Col.abs, SCol.asBool, KOut.map]
+             rw [not_pointwise])
+          | (simp [Col.not, Col.abs, KOut.map, Col.ty, SCol.asBool] at htg ⊢)
+    | err =>
+      have ea := iha (by rw [ha]; exact ht)
+      rw [ha] at ea; simp only [KOut.map] at ea
+      rw [← ea]; rfl
+    | panic =>
+      have ea := iha (by rw [ha]; exact ht)
+      rw [ha] at ea; simp only [KOut.map] at ea
+      rw [← ea]; rfl
+  | neg a iha =>
+    intro ht
+    simp only [evalK] at ht ⊢
+    simp only [specEval]
+    rcases ha : evalK chunk n a with ⟨ra, ta⟩
+    try rw [ha] at ht
+    try rw [ha]
+    cases ra with
+    | ok ca =>
+        simp only [List.append_eq_nil_iff] at ht
+        obtain ⟨hta, htg⟩ := ht
+        have ea := iha (by rw [ha]; exact hta)
+        rw [ha] at ea
+        simp only [KOut.map] at ea
+        have la := evalK_len chunk n hwf a ca (by rw [ha])
+        rw [← ea]
+        simp only
+        cases ca with
+        | int w x =>
+          cases w with
+          | w16 => simp at htg
+          | w32 =>
+            simp only [Col.abs]
+            have hh : x.all (fun s => (negW .w32 s.raw).isOk) = true := by
+              cases hc : x.all (fun s => (negW .w32 s.raw).isOk) <;> simp [hc] at htg ⊢
+              split at htg <;> simp at htg
+            exact neg_abs .w32 (by decide) x hh
+          | w64 =>
+            simp only [Col.abs]
+            have hh : x.all (fun s => (negW .w64 s.raw).isOk) = true := by
+              cases hc : x.all (fun s => (negW .w64 s.raw).isOk) <;> simp [hc] at htg ⊢
+              split at htg <;> simp at htg
+            exact neg_abs .w64 (by decide) x hh
+        | null k => simp at htg
+        | bool x => simp [Col.neg, Col.abs, KOut.map]
+        | str x => simp [Col.neg, Col.abs, KOut.map]
+    | err =>
+      have ea := iha (by rw [ha]; exact ht)
+      rw [ha] at ea; simp only [KOut.map] at ea
+      rw [← ea]; rfl
+    | panic =>
+      have ea := iha (by rw [ha]; exact ht)
+      rw [ha] at ea; simp only [KOut.map] at ea
+      rw [← ea]; rfl
+  | isnull a iha =>
+    intro ht
+    simp only [evalK] at ht ⊢
+    simp only [specEval]
+    rcases ha : evalK chunk n a with ⟨ra, ta⟩
+    try rw [ha] at ht
+    try rw [ha]
+    cases ra with
+    | ok ca =>
+        have hta := ht
+        have ea := iha (by rw [ha]; exact hta)
+        rw [ha] at ea
+        simp only [KOut.map] at ea
+        have la := evalK_len chunk n hwf a ca (by rw [ha])
+        rw [← ea]
+        simp only
+        simp only [KOut.map, isNull_abs]
+        cases ca <;> rfl
+    | err =>
+      have ea := iha (by rw [ha]; exact ht)
+      rw [ha] at ea; simp only [KOut.map] at ea
+      rw [← ea]; rfl
+    | panic =>
+      have ea := iha (by rw [ha]; exact ht)
+      rw [ha] at ea; simp only [KOut.map] at ea
+      rw [← ea]; rfl
+  | cast t a iha =>
+    intro ht
+    simp only [evalK] at ht ⊢
+    simp only [specEval]
+    rcases ha : evalK chunk n a with ⟨ra, ta⟩
+    try rw [ha] at ht
+    try rw [ha]
+    cases ra with
+    | ok ca =>
+        have hta := ht
+        have ea := iha (by rw [ha]; exact hta)
+        rw [ha] at ea
+        simp only [KOut.map] at ea
+        have la := evalK_len chunk n hwf a ca (by rw [ha])
+        rw [← ea]
+        simp only
+        exact cast_abs t ca
+    | err =>
+      have ea := iha (by rw [ha]; exact ht)
+      rw [ha] at ea; simp only [KOut.map] at ea
+      rw [← ea]; rfl
+    | panic =>
+      have ea := iha (by rw [ha]; exact ht)
+      rw [ha] at ea; simp only [KOut.map] at ea
+      rw [← ea]; rfl
+  | concat a b iha ihb =>
+    intro ht
+    simp only [evalK] at ht ⊢
+    simp only [specEval]
+    rcases ha : evalK chunk n a with ⟨ra, ta⟩
+    try rw [ha] at ht
+    try rw [ha]
+    cases ra with
+    | ok ca =>
+      rcases hb : evalK chunk n b with ⟨rb, tb⟩
+      try rw [hb] at ht
+      try rw [hb]
+      cases rb with
+      | ok cb =>
+        simp only [List.append_eq_nil_iff] at ht
+        obtain ⟨⟨hta, htb⟩, htg⟩ := ht
+        have ea := iha (by rw [ha]; exact hta)
+        have eb := ihb (by rw [hb]; exact htb)
+        rw [ha] at ea; rw [hb] at eb
+        simp only [KOut.map] at ea eb
+        have la := evalK_len chunk n hwf a ca (by rw [ha])
+        have lb := evalK_len chunk n hwf b cb (by rw [hb])
+        rw [← ea, ← eb]
+        simp only
+        cases ca <;> cases cb <;> first
+          | (simp only [Col.abs]
+             exact concat_abs _ _)
+          | (simp [Col.concat, Col.abs, KOut.map, Col.ty] at htg ⊢)
+      | err =>
+        simp only [List.append_eq_nil_iff] at ht
+        have ea := iha (by rw [ha]; exact ht.1)
+        have eb := ihb (by rw [hb]; exact ht.2)
+        rw [ha] at ea; rw [hb] at eb
+        simp only [KOut.map] at ea eb
+        rw [← ea, ← eb]; rfl
+      | panic =>
+        simp only [List.append_eq_nil_iff] at ht
+        have ea := iha (by rw [ha]; exact ht.1)
+        have eb := ihb (by rw [hb]; exact ht.2)
+        rw [ha] at ea; rw [hb] at eb
+        simp only [KOut.map] at ea eb
+        rw [← ea, ← eb]; rfl
+    | err =>
+      have ea := iha (by rw [ha]; exact ht)
+      rw [ha] at ea; simp only [KOut.map] at ea
+      rw [← ea]; rfl
+    | panic =>
+      have ea := iha (by rw [ha]; exact ht)
+      rw [ha] at ea; simp only [KOut.map] at ea
+      rw [← ea]; rfl
+  | like a p iha =>
+    intro ht
+    simp only [evalK] at ht ⊢
+    simp only [specEval]
+    rcases ha : evalK chunk n a with ⟨ra, ta⟩
+    try rw [ha] at ht
+    try rw [ha]
+    cases ra with
+    | ok ca =>
+        simp only [List.append_eq_nil_iff] at ht
+        obtain ⟨hta, htg⟩ := ht
+        have ea := iha (by rw [ha]; exact hta)
+        rw [ha] at ea
+        simp only [KOut.map] at ea
+        have la := evalK_len chunk n hwf a ca (by rw [ha])
+        rw [← ea]
+        simp only
+        cases ca with
+        | str x => simp only [Col.abs]; exact like_abs p x htg
+        | null k => simp at htg
+        | bool x => simp [Col.like, Col.abs, KOut.map]
+        | int w x => simp [Col.like, Col.abs, KOut.map]
+    | err =>
+      have ea := iha (by rw [ha]; exact ht)
+      rw [ha] at ea; simp only [KOut.map] at ea
+      rw [← ea]; rfl
+    | panic =>
+      have ea := iha (by rw [ha]; exact ht)
+      rw [ha] at ea; simp only [KOut.map] at ea
+      rw [← ea]; rfl
+  | replace a f t iha =>
+    intro ht
+    simp only [evalK] at ht ⊢
+    simp only [specEval]
+    rcases ha : evalK chunk n a with ⟨ra, ta⟩
+    try rw [ha] at ht
+    try rw [ha]
+    cases ra with
+    | ok ca =>
+        simp only [List.append_eq_nil_iff] at ht
+        obtain ⟨hta, htg⟩ := ht
+        have ea := iha (by rw [ha]; exact hta)
+        rw [ha] at ea
+        simp only [KOut.map] at ea
+        have la := evalK_len chunk n hwf a ca (by rw [ha])
+        rw [← ea]
+        simp only
+        cases ca with
+        | str x => simp only [Col.abs]; exact replace_abs f t x
+        | null k => simp [Col.ty] at htg
+        | bool x => simp [Col.replace, Col.abs, KOut.map]
+        | int w x => simp [Col.replace, Col.abs, KOut.map]
+    | err =>
+      have ea := iha (by rw [ha]; exact ht)
+      rw [ha] at ea; simp only [KOut.map] at ea
+      rw [← ea]; rfl
+    | panic =>
+      have ea := iha (by rw [ha]; exact ht)
+      rw [ha] at ea; simp only [KOut.map] at ea
+      rw [← ea]; rfl
+  | repeat_ s k ihs ihk =>
+    intro ht
+    simp only [evalK] at ht ⊢
+    simp only [specEval]
+    rcases ha : evalK chunk n s with ⟨ra, ta⟩
+    try rw [ha] at ht
+    try rw [ha]
+    cases ra with
+    | ok ca =>
+      rcases hb : evalK chunk n k with ⟨rb, tb⟩
+      try rw [hb] at ht
+      try rw [hb]
+      cases rb with
+      | ok cb =>
+        simp only [List.append_eq_nil_iff] at ht
+        obtain ⟨⟨hta, htb⟩, htg⟩ := ht
+        have ea := ihs (by rw [ha]; exact hta)
+        have eb := ihk (by rw [hb]; exact htb)
+        rw [ha] at ea; rw [hb] at eb
+        simp only [KOut.map] at ea eb
+        have la := evalK_len chunk n hwf s ca (by rw [ha])
+        have lb := evalK_len chunk n hwf k cb (by rw [hb])
+        rw [← ea, ← eb]
+        simp only
+        cases ca with
+        | str x =>
+          cases cb with
+          | int w y =>
+            cases w <;> first
+              | (simp only [Col.abs]
+                 exact repeat_abs _ _)
+              | (simp [Col.repeat_, Col.abs, KOut.map, Col.ty] at htg ⊢)
+          | null k => simp [Col.ty] at htg
+          | bool y => simp [Col.repeat_, Col.abs, KOut.map]
+          | str y => simp [Col.repeat_, Col.abs, KOut.map]
+        | null k => simp [Col.ty] at htg
+        | bool x => cases cb <;> simp [Col.repeat_, Col.abs, KOut.map, Col.ty] at htg ⊢
+        | int w x => cases cb <;> simp [Col.repeat_, Col.abs, KOut.map, Col.ty] at htg ⊢
+      | err =>
+        simp only [List.append_eq_nil_iff] at ht
+        have ea := ihs (by rw [ha]; exact ht.1)
+        have eb := ihk (by rw [hb]; exact ht.2)
+        rw [ha] at ea; rw [hb] at eb
+        simp only [KOut.map] at ea eb
+        rw [← ea, ← eb]; rfl
+      | panic =>
+        simp only [List.append_eq_nil_iff] at ht
+        have ea := ihs (by rw [ha]; exact ht.1)
+        have eb := ihk (by rw [hb]; exact ht.2)
+        rw [ha] at ea; rw [hb] at eb
+        simp only [KOut.map] at ea eb
+        rw [← ea, ← eb]; rfl
+    | err =>
+      have ea := ihs (by rw [ha]; exact ht)
+      rw [ha] at ea; simp only [KOut.map] at ea
+      rw [← ea]; rfl
+    | panic =>
+      have ea := ihs (by rw [ha]; exact ht)
+      rw [ha] at ea; simp only [KOut.map] at ea
+      rw [← ea]; rfl
+  | ite cnd t e ihc iht ihe =>
+    intro ht
+    simp only [evalK] at ht ⊢
+    simp only [specEval]
+    rcases h1 : evalK chunk n cnd with ⟨r1, t1⟩
+    try rw [h1] at ht
+    try rw [h1]
+    cases r1 with
+    | ok c1 =>
+      rcases h2 : evalK chunk n t with ⟨r2, t2⟩
+      try rw [h2] at ht
+      try rw [h2]
+      cases r2 with
+      | ok c2 =>
+        rcases h3 : evalK chunk n e with ⟨r3, t3⟩
+        try rw [h3] at ht
+        try rw [h3]
+        cases r3 with
+        | ok c3 =>
+          simp only [List.append_eq_nil_iff] at ht
+          obtain ⟨⟨⟨ht1, ht2⟩, ht3⟩, htg⟩ := ht
+          have e1 := ihc (by rw [h1]; exact ht1)
+          have e2 := iht (by rw [h2]; exact ht2)
+          have e3 := ihe (by rw [h3]; exact ht3)
+          rw [h1] at e1; rw [h2] at e2; rw [h3] at e3
+          simp only [KOut.map] at e1 e2 e3
+          have l1 := evalK_len chunk n hwf cnd c1 (by rw [h1])
+          have l2 := evalK_len chunk n hwf t c2 (by rw [h2])
+          have l3 := evalK_len chunk n hwf e c3 (by rw [h3])
+          rw [← e1, ← e2, ← e3]
+          simp only
+          cases c1 with
+          | bool s =>
+            cases c2 with
+            | int wa x =>
+              cases c3 with
+              | int wb y =>
+                by_cases hw : wa = wb
+                · subst hw
+                  simp only [beq_self_eq_true, if_true, Col.abs, SCol.asBool] at htg ⊢
+                  exact select_abs s wa x y (by simpa [Col.len] using l2.trans l3.symm)
+                    (by simpa [Col.len] using l1.trans l2.symm) htg
+                · have hb : (wa == wb) = false := by simpa using hw
+                  simp [Col.select, Col.abs, SCol.asBool, KOut.map, hb]
+              | null k => simp [Col.ty] at htg
+              | bool y => simp [Col.select, Col.abs, SCol.asBool, KOut.map]
+              | str y => simp [Col.select, Col.abs, SCol.asBool, KOut.map]
+            | null k => simp [Col.ty] at htg
+            | bool x => cases c3 <;> simp [Col.select, Col.abs, SCol.asBool, KOut.map, Col.ty] at htg ⊢
+            | str x => cases c3 <;> simp [Col.select, Col.abs, SCol.asBool, KOut.map, Col.ty] at htg ⊢
+          | null k => simp [Col.ty] at htg
+          | int w s => cases c2 <;> cases c3 <;> simp [Col.select, Col.abs, SCol.asBool, KOut.map, Col.ty] at htg ⊢
+          | str s => cases c2 <;> cases c3 <;> simp [Col.select, Col.abs, SCol.asBool, KOut.map, Col.ty] at htg ⊢
+        | err =>
+          simp only [List.append_eq_nil_iff] at ht
+          have e1 := ihc (by rw [h1]; exact ht.1.1)
+          have e2 := iht (by rw [h2]; exact ht.1.2)
+          have e3 := ihe (by rw [h3]; exact ht.2)
+          rw [h1] at e1; rw [h2] at e2; rw [h3] at e3
+          simp only [KOut.map] at e1 e2 e3
+          rw [← e1, ← e2, ← e3]; rfl
+        | panic =>
+          simp only [List.append_eq_nil_iff] at ht
+          have e1 := ihc (by rw [h1]; exact ht.1.1)
+          have e2 := iht (by rw [h2]; exact ht.1.2)
+          have e3 := ihe (by rw [h3]; exact ht.2)
+          rw [h1] at e1; rw [h2] at e2; rw [h3] at e3
+          simp only [KOut.map] at e1 e2 e3
+          rw [← e1, ← e2, ← e3]; rfl
+      | err =>
+        simp only [List.append_eq_nil_iff] at ht
+        have e1 := ihc (by rw [h1]; exact ht.1)
+        have e2 := iht (by rw [h2]; exact ht.2)
+        rw [h1] at e1; rw [h2] at e2
+        simp only [KOut.map] at e1 e2
+        rw [← e1, ← e2]; rfl
+      | panic =>
+        simp only [List.append_eq_nil_iff] at ht
+        have e1 := ihc (by rw [h1]; exact ht.1)
+        have e2 := iht (by rw [h2]; exact ht.2)
+        rw [h1] at e1; rw [h2] at e2
+        simp only [KOut.map] at e1 e2
+        rw [← e1, ← e2]; rfl
+    | err =>
+      have e1 := ihc (by rw [h1]; exact ht)
+      rw [h1] at e1; simp only [KOut.map] at e1
+      rw [← e1]; rfl
+    | panic =>
+      have e1 := ihc (by rw [h1]; exact ht)
+      rw [h1] at e1; simp only [KOut.map] at e1
+      rw [← e1]; rfl
+  | substring s b c0 ihs ihb ihc =>
+    intro ht
+    simp only [evalK] at ht ⊢
+    simp only [specEval]
+    rcases h1 : evalK chunk n s with ⟨r1, t1⟩
+    try rw [h1] at ht
+    try rw [h1]
+    cases r1 with
+    | ok c1 =>
+      rcases h2 : evalK chunk n b with ⟨r2, t2⟩
+      try rw [h2] at ht
+      try rw [h2]
+      cases r2 with
+      | ok c2 =>
+        rcases h3 : evalK chunk n c0 with ⟨r3, t3⟩
+        try rw [h3] at ht
+        try rw [h3]
+        cases r3 with
+        | ok c3 =>
+          simp only [List.append_eq_nil_iff] at ht
+          obtain ⟨⟨⟨ht1, ht2⟩, ht3⟩, htg⟩ := ht
+          have e1 := ihs (by rw [h1]; exact ht1)
+          have e2 := ihb (by rw [h2]; exact ht2)
+          have e3 := ihc (by rw [h3]; exact ht3)
+          rw [h1] at e1; rw [h2] at e2; rw [h3] at e3
+          simp only [KOut.map] at e1 e2 e3
+          have l1 := evalK_len chunk n hwf s c1 (by rw [h1])
+          have l2 := evalK_len chunk n hwf b c2 (by rw [h2])
+          have l3 := evalK_len chunk n hwf c0 c3 (by rw [h3])
+          rw [← e1, ← e2, ← e3]
+          simp only
+          cases c1 with
+          | str x =>
+            cases c2 with
+            | int w1 y =>
+              cases c3 with
+              | int w2 z =>
+                cases w1 <;> cases w2 <;> first
+                  | (simp only [Col.substring, Col.abs, KOut.map]
+                     rw [substring_abs])
+                  | (simp [Col.substring, Col.abs, KOut.map])
+              | null k => simp [Col.ty] at htg
+              | bool z => cases w1 <;> simp [Col.substring, Col.abs, KOut.map]
+              | str z => cases w1 <;> simp [Col.substring, Col.abs, KOut.map]
+            | null k => simp [Col.ty] at htg
+            | bool y => cases c3 <;> simp [Col.substring, Col.abs, KOut.map, Col.ty] at htg ⊢
+            | str y => cases c3 <;> simp [Col.substring, Col.abs, KOut.map, Col.ty] at htg ⊢
+          | null k => simp [Col.ty] at htg
+          | bool x => cases c2 <;> cases c3 <;> simp [Col.substring, Col.abs, KOut.map, Col.ty] at htg ⊢
+          | int w x => cases c2 <;> cases c3 <;> simp [Col.substring, Col.abs, KOut.map, Col.ty] at htg ⊢
+        | err =>
+          simp only [List.append_eq_nil_iff] at ht
+          have e1 := ihs (by rw [h1]; exact ht.1.1)
+          have e2 := ihb (by rw [h2]; exact ht.1.2)
+          have e3 := ihc (by rw [h3]; exact ht.2)
+          rw [h1] at e1; rw [h2] at e2; rw [h3] at e3
+          simp only [KOut.map] at e1 e2 e3
+          rw [← e1, ← e2, ← e3]; rfl
+        | panic =>
+          simp only [List.append_eq_nil_iff] at ht
+          have e1 := ihs (by rw [h1]; exact ht.1.1)
+          have e2 := ihb (by rw [h2]; exact ht.1.2)
+          have e3 := ihc (by rw [h3]; exact ht.2)
+          rw [h1] at e1; rw [h2] at e2; rw [h3] at e3
+          simp only [KOut.map] at e1 e2 e3
+          rw [← e1, ← e2, ← e3]; rfl
+      | err =>
+        simp only [List.append_eq_nil_iff] at ht
+        have e1 := ihs (by rw [h1]; exact ht.1)
+        have e2 := ihb (by rw [h2]; exact ht.2)
+        rw [h1] at e1; rw [h2] at e2
+        simp only [KOut.map] at e1 e2
+        rw [← e1, ← e2]; rfl
+      | panic =>
+        simp only [List.append_eq_nil_iff] at ht
+        have e1 := ihs (by rw [h1]; exact ht.1)
+        have e2 := ihb (by rw [h2]; exact ht.2)
+        rw [h1] at e1; rw [h2] at e2
+        simp only [KOut.map] at e1 e2
+        rw [← e1, ← e2]; rfl
+    | err =>
+      have e1 := ihs (by rw [h1]; exact ht)
+      rw [h1] at e1; simp only [KOut.map] at e1
+      rw [← e1]; rfl
+    | panic =>
+      have e1 := ihs (by rw [h1]; exact ht)
+      rw [h1] at e1; simp only [KOut.map] at e1
+      rw [← e1]; rfl
 
 end RlModel
